@@ -89,6 +89,16 @@ CheckC17t(e) ==
   Tag(e.invokes = 0, "handler-ran-without-a-match")
   \cup Tag(Len(e.a) = Len(e.b) /\ \A i \in 1..Len(e.a) : (SameOutcome(e.a[i], e.b[i]) /\ e.a[i].seed = e.b[i].seed), "not-transparent")
 
+\* c17c: Ext!UsedByCopy for containers - a handler returns ONE array / nested array / dict object every time; the script changes
+\* the value it received; a later evaluation and the handler's own object are as before.  kind = "groups": a stream parser returns
+\* ONE groups slice every time; every handler call sees the text of its own operand.
+CheckC17c(e) ==
+  Tag(~e.err, "custom-operand-rejected")
+  \cup (IF e.err THEN {}
+        ELSE Tag(e.got = e.want, "handler-value-not-used-by-copy")
+             \cup Tag(e.handlerObject = e.handlerWant, "handler-object-changed-by-script")
+             \cup Tag(e.kind # "groups" \/ e.texts = e.wantTexts, "handler-received-foreign-groups"))
+
 \* c17p: a program whose operands include matching custom syntaxes (b), and the same program with their values written out (a).
 \* ops = the custom operands in source order with what the handler must receive and how often each is evaluated;
 \* listing = the dice.custom instructions compiled; events = handler invocations and dice.custom dispatches (hook H1) in real order.
@@ -128,6 +138,7 @@ CheckC17p(e) ==
 Check(e) == CASE e.ev = "c03" -> CheckC03(e)
               [] e.ev = "c17t" -> CheckC17t(e)
               [] e.ev = "c17p" -> CheckC17p(e)
+              [] e.ev = "c17c" -> CheckC17c(e)
               [] e.ev = "c06" -> CheckC06(e)
               [] e.ev = "c09" -> CheckC09(e)
               [] e.ev = "c09u" -> CheckC09u(e)
